@@ -255,3 +255,22 @@ struct FileContent {
     content: String,
     is_remote: bool,
 }
+
+#[cfg(emmyluals_emmylua_analyzer_rust_verif)]
+impl Vfs {
+    /// Verification hook: entry counts of every container of the virtual file system.
+    pub fn verif_sizes(&self) -> Vec<(&'static str, usize)> {
+        vec![
+            ("file_id_map", self.file_id_map.len()),
+            ("file_path_map", self.file_path_map.len()),
+            ("remote_file_id_map", self.remote_file_id_map.len()),
+            ("file_data/slots", self.file_data.len()),
+            (
+                "file_data/live",
+                self.file_data.iter().filter(|d| d.is_some()).count(),
+            ),
+            ("line_index_map", self.line_index_map.len()),
+            ("tree_map", self.tree_map.len()),
+        ]
+    }
+}
